@@ -6,6 +6,7 @@
    term (c03_truncate_contract_partial) - the general case is the open finding c03_truncate_one_round_refuted. *)
 From Coq Require Import List ZArith.
 From Oxia.Node Require Import Model Lemmas Fence Matching Refuted.
+From Oxia.Cluster Require Model Invariants Preservation.
 Import ListNotations.
 Open Scope Z_scope.
 
@@ -66,3 +67,15 @@ Theorem c03_ack_differs_old_refuted :
     In e (n_wal n') /\ e_off e <= off /\ nth_error (llog_o5b 2) (Z.to_nat (e_off e)) <> Some e.
 Proof. exact ack_differs_old_refuted. Qed.
 Print Assumptions c03_ack_differs_old_refuted.
+
+(* Cluster level (World model of Cluster/Model.v, C01's invariant): in every state reachable by any execution of the
+   repaired protocol without ensemble change, a node that acknowledged offset o in term t and is still in term t holds
+   exactly the log of the leader of t up to o.  (For the code: on executions with CodeModel.consistent_run, by run_code_eq.) *)
+Theorem c03_ack_implies_matching_cluster : forall E acts w,
+  NoDup E -> Oxia.Cluster.Preservation.no_swap acts = true ->
+  Oxia.Cluster.Model.run (Oxia.Cluster.Model.init E) acts = Some w ->
+  forall x t o, In (x, t, o) (Oxia.Cluster.Model.acks w) ->
+  Oxia.Cluster.Model.nterm (Oxia.Cluster.Model.nodes w x) = t ->
+  firstn (S o) (Oxia.Cluster.Model.nlog (Oxia.Cluster.Model.nodes w x)) = firstn (S o) (Oxia.Cluster.Model.tlog w t).
+Proof. exact Oxia.Cluster.Preservation.ack_implies_matching. Qed.
+Print Assumptions c03_ack_implies_matching_cluster.
